@@ -10,6 +10,12 @@ PREF = {
        "an iterator or a default value used by the anchored code), or an INTERACTION between two options / input classes named in the "
        "'QUANTIFIED OVER' text that are rarely combined, or a boundary of a numeric parameter (0, 1, exactly equal to a limit, "
        "the last element, an empty group). It must still be realistic and keep all 81 tests passing."),
+ 'e': ("PREFERRED this time, one of: (a) a dependence on something the code does not control - the iteration order of a set or dict, the "
+       "completion order of worker processes, the current working directory or a relative vs absolute path, a stale file left by a previous "
+       "run, the form of a file name (.gz vs plain, dots or spaces in names, same base name in two directories); (b) an ERROR PATH: what "
+       "happens to the guarantee right after a handled / ignored exception, an early return, a `continue`, or the clean-up in a `finally`; "
+       "(c) a bug that needs VOLUME: it shows only after many operations - the second chunk of a chunked loop, a flush every k records, a "
+       "buffer or cache that reaches its limit, a counter that passes a threshold. It must still be realistic and keep all 81 tests passing."),
 }
 props = [json.loads(l) for l in open(os.path.join(V, 'properties.jsonl'))]
 tmpl = open('/tmp/agent_prompt_template.txt').read() if os.path.exists('/tmp/agent_prompt_template.txt') else None
